@@ -1594,3 +1594,19 @@ func raString(ra *ndp.RouterAdvertisement) string {
 }
 
 func vkPfx(s string) netip.Prefix { return netip.MustParsePrefix(s) }
+
+// stFor derives the system state of the idx-th configured interface: real
+// interfaces differ in hardware address and addresses, and configuration
+// objects that are (wrongly) shared between interfaces only show up then.
+func stFor(st sysState, idx int) sysState {
+	out := st
+	if len(st.MAC) > 0 {
+		out.MAC = append([]byte(nil), st.MAC...)
+		out.MAC[len(out.MAC)-1] ^= byte(idx + 1)
+	}
+	out.Addrs = append(append([]system.IP(nil), st.Addrs...), system.IP{
+		Address:      netip.MustParsePrefix(fmt.Sprintf("2001:db8:a:ff%02x::1/64", idx)),
+		ValidForever: idx%2 == 0,
+	})
+	return out
+}
